@@ -2,7 +2,7 @@
 Line-protocol driver for the `dsl` cluster (C15).
 
   c  <text> <uw>           compile_str(text)      →  ok <path>|<path>|…   or   err ValueError
-  eq <text1> <text2> <uw>  parse / compile both   →  eq <exprs equal> <graph lists ==> <graph sets ==>
+  eq <text1> <text2> <uw> <rel>  (rel ignored)   →  eq <exprs equal> <graph lists ==> <graph sets ==>
                                                      (eq <b> err when a compile raises; err ValueError when a parse raises)
 
 <text>: `=` then the characters; those outside '!'..'~' and the backslash are written `\HEX;` (code point).
@@ -99,7 +99,7 @@ def handle (line : String) : String :=
     match unesc t, parseUw u with
     | some s, some uw => showCompile (compileChars uw s)
     | _, _ => "bad-case"
-  | ["eq", a, b, u] =>
+  | ["eq", a, b, u, _rel] =>
     match unesc a, unesc b, parseUw u with
     | some a, some b, some uw => handleEq uw a b
     | _, _, _ => "bad-case"
